@@ -53,3 +53,34 @@ for _fn in ("_find_word_start", "_find_word_end", "_find_last_non_space_char"):
     bounded_check(name="c14-%s-native" % _fn.strip("_").replace("_", "-"), props=["C14"], contract="_RealFinder." + _fn, build=_xc_w_build, domain=_xc_w_domain,
                   exhaustive=True, label="CPython cross-check: %s's contract on every text of <= 5 characters over {a,_,space,newline,.} x every offset "
                                          "(cases outside the precondition are skipped)" % _fn)
+
+# ---- indentation of a line: rope.base.codeanalyze.count_line_indents (scope extents, holding scope by line, auto-indent) ----------------
+specfun("ind", ["Str", "Int"], "Int", note="indentation contributed by the first k characters: 1 per space, 8 per tab")
+axiom("ind_zero", {"s": "Str"}, "ind(s, 0) == 0", patterns=["ind(s, 0)"], strmode="intseq", note="definition")
+axiom("ind_step", {"s": "Str", "k": "Int"},
+      "implies(0 <= k and k < len(s), ind(s, k + 1) == ind(s, k) + ite(s[k] == ' ', 1, ite(s[k] == '\\t', 8, 0)))", patterns=["ind(s, k + 1)"], strmode="intseq",
+      note="definition by recurrence")
+specdef("blank", {"s": "Str", "k": "Int"}, "Bool", "s[k] == ' ' or s[k] == '\\t'")
+contract("count_line_indents", source="rope.base.codeanalyze:count_line_indents", strmode="intseq", params={"line": "Str"}, returns="Int", modifies=[], raises={},
+         ensures=[
+             # a line with nothing but blanks has indentation 0; otherwise the blanks before the first other character are counted
+             "implies(forall(lambda k: implies(0 <= k and k < len(line), blank(line, k))), result == 0)",
+             "forall(lambda p: implies(0 <= p and p < len(line) and not blank(line, p) and forall(lambda k: implies(0 <= k and k < p, blank(line, k))), result == ind(line, p)))",
+             "result >= 0"],
+         loops={1: {"index": "i", "inv": ["indents == ind(line, i)", "indents >= 0", "forall(lambda k: implies(0 <= k and k < i, blank(line, k)))"]}},
+         note="spaces count 1, tabs 8, up to the first character that is neither; an all-blank (or empty) line counts 0")
+
+
+def _xc_ind(s, k):
+    return sum(1 if c == " " else 8 if c == "\t" else 0 for c in s[:k])
+
+
+def _xc_cli_domain(tier, seed):
+    import itertools
+    for n in range(0, 6 if tier != "thorough" else 7):
+        for t in itertools.product(" \tx", repeat=n):
+            yield "".join(t)
+
+
+bounded_check(name="c14-count-line-indents-native", props=["C14"], contract="count_line_indents", build=lambda s: {"line": s}, domain=_xc_cli_domain, exhaustive=True,
+              env={"ind": _xc_ind}, label="CPython cross-check: count_line_indents' contract on every string of <= 5 (thorough 6) characters over {space, tab, x}")
